@@ -135,3 +135,12 @@ also("C11", "loadPayload hands the complete payload to json.Unmarshal, whose err
 also("C12", "The payload loader refuses trailing data (shared R-C11-9).")
 also("C14", "The two capture buffers do not share an allocation (R-C14-10).")
 also("C20", "Every flag has a destination variable of its own (R-C20-2); each element of the intermediatePems argument is the unmodified result of reading one --intermediate-certs file (R-C20-9).")
+
+# round 11 of the seeded changes ("needs a multi-step history")
+for _p in ["C01","C02","C03","C04","C05","C06","C07","C08","C09","C11","C12","C14","C15","C17","C18","C19"]:
+    also(_p, "The library keeps no state between calls (shared R-C16-1): no package-level variable, cache, memo or pool is written outside initialisation, so a later call never meets what an earlier call left behind.")
+also("C01", "Every successful load derives the key id from the loaded material (shared R-C19-9): two keys loaded into one Key variable cannot end up under one id.")
+also("C08", "The expiry check of a sublayout compares with a clock reading of its own (shared R-C06-2).")
+also("C10", "A3.7: a map created before a map-range loop that is updated per element and also read inside the loop makes an iteration depend on the ones before it.")
+also("C15", "R-C15-9: a method is called on the interface result of a map lookup only under a checked comma-ok, a nil test, or a key that provably comes from that map's own keys in the same iteration (a key list carried around an outer loop does not count); the two lookups of GetSummaryLink rest on the reviewed pipeline invariant that ReduceStepsMetadata stores an entry per step.")
+also("C19", "R-C19-9: every success return of setKeyComponents lies behind a successful generateKeyID(), and every store into KeyID is the digest computed in that call.")
